@@ -175,7 +175,9 @@ func c06Gen(r *rand.Rand, n int, tier string) []string {
 		tick := func() int64 { clock += 2; return clock }
 		nt := func() string { return fmt.Sprintf("%s,-,0,%s,%d,0,-,-", hxs("nodeType"), hxs("device"), tick()) }
 		tomb := func(v float64) string { return fmt.Sprintf("%s,-,%s,-,%d,0,-,-", hxs("tombstone"), valStr(v), tick()) }
-		val := func() string { return fmt.Sprintf("%s,%s,%s,-,%d,0,-,-", hxs("value"), hxs(pick(r, []string{"", "0", "1"})), valStr(float64(r.Intn(9))), tick()) }
+		val := func() string {
+			return fmt.Sprintf("%s,%s,%s,-,%d,0,-,-", hxs("value"), hxs(pick(r, []string{"", "0", "1"})), valStr(float64(r.Intn(9))), tick())
+		}
 		nodes := []string{"R"}
 		type edge struct{ up, down string }
 		var edges []edge
